@@ -2355,9 +2355,9 @@ where
         let before = inp.save().clone();
         match self.parser_a.go::<M>(inp) {
             Ok(out) => {
-                // A succeeded -- go back to the beginning and try B
+                // A succeeded -- go back to the beginning and try B (keeping the errors A emitted)
                 let after = inp.save();
-                inp.rewind(before);
+                inp.rewind_input(before);
 
                 match self.parser_b.go::<Check>(inp) {
                     Ok(()) => {
@@ -2674,7 +2674,7 @@ where
         let before = inp.save();
         match self.parser.go::<M>(inp) {
             Ok(out) => {
-                inp.rewind(before);
+                inp.rewind_input(before);
                 Ok(out)
             }
             Err(()) => Err(()),
